@@ -33,7 +33,12 @@ BASE = [
     {"k": "pp", "q": 0}, {"k": "pp", "q": 1}, {"k": "pp", "q": 2}, {"k": "pp", "q": 3}, {"k": "pp", "q": 2, "ard": True},
     {"k": "sm", "mixtures": 3},
     {"k": "hamming"},
+    {"k": "arc", "base": {"k": "rbf"}}, {"k": "arc", "base": {"k": "matern", "nu": 2.5}, "ard": True}, {"k": "arc", "base": {"k": "matern", "nu": 1.5}},
+    {"k": "cylindrical", "weights": 3, "base": {"k": "matern", "nu": 2.5}}, {"k": "cylindrical", "weights": 1, "base": {"k": "rbf"}},
+    {"k": "spectral_delta", "deltas": 5}, {"k": "spectral_delta", "deltas": 2, "ard": True},
+    {"k": "gskl"},
 ]
+LDB = ("rbf", "matern", "rq", "periodic", "cosine", "linear", "poly", "constant")
 COMPOSED = [
     {"k": "scale", "base": {"k": "rbf", "ard": True}},
     {"k": "scale", "base": {"k": "matern", "nu": 2.5}},
@@ -107,6 +112,16 @@ def _build(spec, d, pb):
         return K.ConstantKernel(batch_shape=bs)
     if k == "hamming":
         return K.HammingIMQKernel(vocab_size=4, batch_shape=bs)
+    if k == "arc":
+        kw = {"ard_num_dims": d} if spec.get("ard") else {}
+        return K.ArcKernel(util.build_kernel(spec["base"], 2 * d, pb), batch_shape=bs, **kw)
+    if k == "cylindrical":
+        return K.CylindricalKernel(spec["weights"], util.build_kernel(spec["base"], 1, pb), batch_shape=bs)
+    if k == "spectral_delta":
+        kw = {"ard_num_dims": d} if spec.get("ard") else {}
+        return K.SpectralDeltaKernel(num_dims=d, num_deltas=spec["deltas"], batch_shape=bs, **kw)
+    if k == "gskl":
+        return K.GaussianSymmetrizedKLKernel(batch_shape=bs)
     if k == "additive_structure":
         return K.AdditiveStructureKernel(util.build_kernel(spec["base"], 1, pb), num_dims=d)
     if k == "product_structure":
@@ -164,6 +179,16 @@ def run_case(case, ctx):
         c2 = torch.randint(0, 4, (*xb, n2, d), generator=g)
         x1 = torch.nn.functional.one_hot(c1, 4).reshape(*xb, n1, -1).double()
         x2 = torch.nn.functional.one_hot(c2, 4).reshape(*xb, n2, -1).double()
+    elif spec["k"] == "cylindrical":
+        # documented domain: the unit ball
+        def ball(n):
+            v = util.randn(g, *xb, n, d)
+            return v / v.norm(dim=-1, keepdim=True) * (0.05 + 0.9 * util.rand(g, *xb, n, 1))
+
+        x1, x2 = ball(n1), ball(n2)
+    elif spec["k"] == "gskl":
+        x1 = util.randn(g, *xb, n1, 2 * d) * 0.7
+        x2 = util.randn(g, *xb, n2, 2 * d) * 0.7
     else:
         x1 = util.randn(g, *xb, n1, d)
         x2 = util.randn(g, *xb, n2, d)
@@ -205,6 +230,28 @@ def run_case(case, ctx):
             if case["rel"] == "same":
                 one = kern(x1).to_dense()
                 ctx.close("kernel_value_one_arg", one, ref.expand(one.shape), tol, cls=cls)
+            if spec["k"] in LDB and not spec.get("ard") and d > 1:
+                # documented Kernel.__call__ option: the last input dimension becomes a batch dimension, i.e. one kernel
+                # matrix per input column (what the additive / product structure kernels are built from)
+                try:
+                    ldb = kern(x1, x2, last_dim_is_batch=True).to_dense()
+                except NotImplementedError as e:
+                    ctx.reject(f"last_dim_is_batch:{spec['k']}:{type(e).__name__}")
+                    ldb = None
+                except Exception as e:
+                    if "does not accept" in str(e):
+                        ctx.reject(f"last_dim_is_batch:{spec['k']}:refused")
+                    else:
+                        ctx.fail("last_dim_is_batch", f"raised {type(e).__name__}: {str(e)[:140]}", "raise", kclass=type(kern).__name__, exc=type(e).__name__)
+                    ldb = None
+                if ldb is not None:
+                    x1d, x2d = x1.detach(), x2.detach()
+                    per = [_oracle(spec, kern, x1d[..., i : i + 1], x2d[..., i : i + 1]) for i in range(d)]
+                    per = torch.stack([p_.expand(*got.shape) if p_.numel() != got.numel() else p_.reshape(got.shape) for p_ in per], dim=-3)
+                    if ldb.shape != per.shape:
+                        ctx.fail("last_dim_is_batch", f"shape {tuple(ldb.shape)} instead of {tuple(per.shape)}", "shape", kclass=type(kern).__name__)
+                    else:
+                        ctx.close("last_dim_is_batch", ldb, per, tol, cls=cls + ":ldb")
     except NotImplementedError as e:
         ctx.reject(f"NotImplementedError:{spec['k']}")
         return
